@@ -5,7 +5,7 @@ from staticlib.session import get_session
 
 from ._purity import purity_findings
 from ._typing import vectorize_mode
-from .c01 import group_id_arithmetic, whole_column
+from .c01 import whole_column
 
 
 def check(ctx):
@@ -24,5 +24,4 @@ def check(ctx):
     ctx.ob("P0", ok=not p0, distinct="wrapper", n=3)
     for rid, loc, msg in p0:
         ctx.violation("P0", rid, loc, msg)
-    whole_column(ctx, repo)
-    group_id_arithmetic(ctx, repo, "W5")
+    whole_column(ctx, repo)  # includes W5 (id arithmetic) and IX (index spaces)
